@@ -649,6 +649,14 @@ func init() {
 					vBFS(c, &vHnswSys{c: c, cfg: cfg, cfgS: cfg.String(), vals: vHnswVals(cfg.Dim, cfg.Vals)}, depth)
 				}})
 			}
+			for _, bcfg := range []vVecCfg{{Kind: "hnsw", Metric: Euclidean, Dim: 2, M: 2, Ef: 2}, {Kind: "hnsw", Metric: Cosine, Dim: 3, M: 4, Ef: 16}} {
+				bcfg := bcfg
+				bdepth := 3
+				if tier == "thorough" {
+					bdepth = 4
+				}
+				sh = append(sh, vShard{Name: "builders/" + strings.ReplaceAll(bcfg.String(), " ", ","), Run: func(c *vCtx) { vVecBuilderShard(c, bcfg, bdepth) }})
+			}
 			for _, m := range []int{16, 32} {
 				for _, metric := range []DistanceKind{Euclidean, Cosine} {
 					m, metric := m, metric
